@@ -730,6 +730,13 @@ fn remove_tuples_from_statement(stmt: Statement) -> Result<Statement, Box<Report
                     }
                     LogArgument::LogExp(exp) => {
                         let mut sep_args = separate_tuple_for_log_call(vec![exp]);
+                        for sep_arg in &sep_args {
+                            // Only tuples at the top are unfolded. A tuple below
+                            // another expression is invalid.
+                            if let LogArgument::LogExp(value) = sep_arg {
+                                remove_tuple_from_expression(value.clone())?;
+                            }
+                        }
                         new_args.append(&mut sep_args);
                     }
                 }
